@@ -240,14 +240,20 @@ func collectTVarFTypeWithSet(visited SSet, ft FType) []string {
 		return recurse(fa.RecType)
 	case FType_FRecord:
 		rt := _v9.Value
-		ri := lookupRecInfo(rt)
-		fres := frt.Pipe(frt.Pipe(ri.Fields, (func(_r0 []NameTypePair) []FType {
-			return slice.Map(func(_v1 NameTypePair) FType {
-				return _v1.Ftype
-			}, _r0)
-		})), (func(_r0 []FType) []string { return slice.Collect(recurse, _r0) }))
-		tres := frt.Pipe(rt.Targs, (func(_r0 []FType) []string { return slice.Collect(recurse, _r0) }))
-		return slice.Append(fres, tres)
+		rkey := rtToKey(rt)
+		return frt.IfElse(SSetHasKey(visited, rkey), (func() []string {
+			return slice.New[string]()
+		}), (func() []string {
+			SSetPut(visited, rkey)
+			ri := lookupRecInfo(rt)
+			fres := frt.Pipe(frt.Pipe(ri.Fields, (func(_r0 []NameTypePair) []FType {
+				return slice.Map(func(_v1 NameTypePair) FType {
+					return _v1.Ftype
+				}, _r0)
+			})), (func(_r0 []FType) []string { return slice.Collect(recurse, _r0) }))
+			tres := frt.Pipe(rt.Targs, (func(_r0 []FType) []string { return slice.Collect(recurse, _r0) }))
+			return slice.Append(fres, tres)
+		}))
 	case FType_FUnion:
 		ut := _v9.Value
 		uname := utName(ut)
@@ -445,7 +451,13 @@ func transTVFTypeWithSet(visited SSet, transTV func(TypeVar) FType, ftp FType) F
 		return frt.Pipe(ParamdType{Name: pt.Name, Targs: nts}, New_FType_FParamd)
 	case FType_FRecord:
 		rt := _v17.Value
-		return frt.Pipe(transRecType(recurse, rt), New_FType_FRecord)
+		rkey := rtToKey(rt)
+		return frt.IfElse(SSetHasKey(visited, rkey), (func() FType {
+			return ftp
+		}), (func() FType {
+			SSetPut(visited, rkey)
+			return frt.Pipe(transRecType(recurse, rt), New_FType_FRecord)
+		}))
 	case FType_FUnion:
 		ut := _v17.Value
 		uname := utName(ut)
